@@ -1,5 +1,347 @@
+import LunaVerif.Lemmas.C09Stage
+import LunaVerif.Lemmas.C09BlockReq
+import LunaVerif.Lemmas.C09DistReq
 import LunaVerif.Model.Usb2.DescriptorMux
-/-! # C09 (work in progress: theorems follow) -/
+/-!
+# C09 — GET_DESCRIPTOR returns exactly the requested descriptor bytes
+
+"For any descriptor collection (including non-consecutive indices) and either descriptor handler
+(block-RAM ROM or the block-RAM-free variant), and any request (type, index, wLength) read in
+max-packet-size pieces, the concatenated data stage equals the first min(wLength, descriptor length)
+bytes of that descriptor, each packet is at most the max packet size, and the stage ends with a short
+packet or, when the total is a non-zero multiple of the packet size below wLength, with a
+zero-length packet.  Requests for descriptors that do not exist are STALLed without data."
+
+The specification vocabulary (`dataStage`, `specResponse`, `respTrace`, `hostRead`) is in
+`Props/C09Spec.lean`.  The statement is split the way the gateware is:
+
+* packet level (`block_packet_exact_partial`, `dist_packet_exact`): started from an idle state with
+  `value`/`length`/`start_position` held, the model's whole output trace, for *every* `tx.ready`
+  pattern, is a few quiet cycles followed by the abstract transmitter's trace of
+  `specResponse` — the right chunk, a single ZLP pulse, or a single STALL pulse without `valid`;
+* data-stage level (`datastage_exact`): the host's in-order read (one IN per packet at
+  `start_position = k·mps`, as `StandardRequestHandler` advances it on ACK) over responses that meet
+  `specResponse` yields exactly `dataStage d wLength mps`, whose concatenation is `d.take wLength`
+  (`dataStage_concat`) and whose packets are at most `mps` long (`dataStage_packet_le`).
+
+Max packet sizes are the four USB 2.0 allows for a control endpoint (8, 16, 32, 64).
+-/
 namespace LunaVerif.Desc
-theorem c09_placeholder : (1 : Nat) = 1 := rfl
+
+/-- the descriptor a wValue names. -/
+def descrBytes (coll : Collection) (ty idx : Nat) : Option (List Nat) := (find? coll ty idx).map (·.bytes)
+
+/-- the block handler for a collection (`GetDescriptorHandlerBlock(collection, max_packet_length)`). -/
+def blockOf (coll : Collection) (mps : Nat) : Block.Config := ⟨Rom.layout coll, mps⟩
+
+/-- the distributed handler for a collection of fixed descriptors. -/
+def distOf (coll : Collection) (mps : Nat) : Dist.Config :=
+  ⟨coll.map (fun d => ⟨key d, ⟨d.bytes⟩, some d.bytes.length⟩), mps⟩
+
+/-- no request in flight in the distributed handler: no `send_zlp`, every generator idle with its
+registered `start` low. -/
+def Dist.Quiescent (c : Dist.Config) (s : Dist.State) : Prop :=
+  s.sendZlp = false ∧ s.gens.length = c.entries.length ∧ ∀ g ∈ s.gens, g.1.fsm = .idle ∧ g.2 = false
+
+/-! ## The specification's data stage -/
+
+theorem chunks_flatten (l : List Nat) (mps : Nat) :
+    ∀ n, ((List.range n).map (fun k => (l.drop (k * mps)).take mps)).flatten = l.take (n * mps) := by
+  intro n
+  induction n with
+  | zero => simp
+  | succ n ih =>
+    rw [List.range_succ, List.map_append, List.flatten_append, ih]
+    simp only [List.map_cons, List.map_nil, List.flatten_cons, List.flatten_nil, List.append_nil]
+    rw [Nat.succ_mul, List.take_add]
+
+/-- **concatenation**: the packets of the data stage concatenate to the first `wLength` bytes. -/
+theorem dataStage_concat (d : List Nat) (wLength mps : Nat) (hm : 0 < mps) :
+    (dataStage d wLength mps).flatten = d.take wLength := by
+  unfold dataStage
+  simp only [List.flatten_append]
+  have hz : (if min wLength d.length ≠ 0 ∧ min wLength d.length % mps = 0 ∧ min wLength d.length < wLength
+      then [([] : List Nat)] else []).flatten = [] := by split <;> simp
+  rw [hz, List.append_nil]
+  have := chunks_flatten (d.take wLength) mps ((min wLength d.length + mps - 1) / mps)
+  unfold packetAt
+  rw [this]
+  apply List.take_of_length_le
+  rw [List.length_take]
+  have h1 : (min wLength d.length + mps - 1) / mps * mps + (min wLength d.length + mps - 1) % mps
+      = min wLength d.length + mps - 1 := by
+    rw [Nat.mul_comm]; exact Nat.div_add_mod _ _
+  have h2 := Nat.mod_lt (min wLength d.length + mps - 1) hm
+  omega
+
+/-- **packet size**: every packet of the data stage is at most `mps` long. -/
+theorem dataStage_packet_le (d : List Nat) (wLength mps : Nat) :
+    ∀ p ∈ dataStage d wLength mps, p.length ≤ mps := by
+  intro p hp
+  unfold dataStage at hp
+  rw [List.mem_append] at hp
+  rcases hp with hp | hp
+  · rw [List.mem_map] at hp
+    obtain ⟨k, _, rfl⟩ := hp
+    rw [packetAt_length]; omega
+  · split at hp
+    · simp at hp; subst hp; simp
+    · simp at hp
+
+/-- **data stage** (for any response function that meets the packet-level specification on the
+offsets an in-order read visits): the host's read is exactly `dataStage`. -/
+theorem datastage_exact (resp : Nat → Response) (d : List Nat) (wLength mps fuel : Nat)
+    (hm : mps = 8 ∨ mps = 16 ∨ mps = 32 ∨ mps = 64)
+    (hw : 0 < wLength) (hd : 0 < d.length) (h11 : min wLength d.length < 2048)
+    (hresp : ∀ k, k * mps ≤ min wLength d.length → k * mps < wLength →
+      resp (k * mps) = specResponse (some d) wLength mps (k * mps))
+    (hfuel : (min wLength d.length + mps - 1) / mps + 1 ≤ fuel) :
+    hostRead resp mps wLength fuel 0 0 = (dataStage d wLength mps).map Response.ofPacket := by
+  rw [dataStage_map]
+  have := hostRead_from resp d wLength mps fuel hm hw hd h11 hresp
+    ((min wLength d.length + mps - 1) / mps) 0 (by omega) (Or.inl rfl) hfuel
+  simpa using this
+
+/-- in particular over the specification's own responses. -/
+theorem datastage_exact_spec (d : List Nat) (wLength mps fuel : Nat)
+    (hm : mps = 8 ∨ mps = 16 ∨ mps = 32 ∨ mps = 64)
+    (hw : 0 < wLength) (hd : 0 < d.length) (h11 : min wLength d.length < 2048)
+    (hfuel : (min wLength d.length + mps - 1) / mps + 1 ≤ fuel) :
+    hostRead (specResponse (some d) wLength mps) mps wLength fuel 0 0
+      = (dataStage d wLength mps).map Response.ofPacket :=
+  datastage_exact _ d wLength mps fuel hm hw hd h11 (fun _ _ _ => rfl) hfuel
+
+/-- an absent descriptor: the read is a single STALL. -/
+theorem datastage_stall_when_absent (wLength mps fuel : Nat) :
+    hostRead (specResponse none wLength mps) mps wLength (fuel + 1) 0 0 = [.stall] := by
+  simp [hostRead, specResponse]
+
+example : dataStage [1, 2, 3, 4, 5, 6, 7, 8, 9, 10, 11, 12, 13, 14, 15, 16] 0xFFFF 8
+    = [[1, 2, 3, 4, 5, 6, 7, 8], [9, 10, 11, 12, 13, 14, 15, 16], []] := by decide
+example : dataStage [1, 2, 3, 4, 5, 6, 7, 8, 9, 10, 11, 12, 13, 14, 15, 16] 16 8
+    = [[1, 2, 3, 4, 5, 6, 7, 8], [9, 10, 11, 12, 13, 14, 15, 16]] := by decide
+example : dataStage [1, 2, 3, 4, 5, 6, 7, 8, 9, 10] 255 8 = [[1, 2, 3, 4, 5, 6, 7, 8], [9, 10]] := by decide
+
+/-! ## Block-ROM handler -/
+
+/-- **block_packet_exact** (partial: *assuming* `romOk`, i.e. `rom_lookup_correct` for this
+collection — the pointer hops over `Rom.layout coll` reach every present descriptor and refuse every
+absent one; the assumption is *evaluated* by the Lean driver on the ROM of every generated
+collection in every run, see PARTIAL).
+
+Full statement (not proved): the same without `hrom`, for every `wellFormed` collection.
+
+From any idle state, for every `tx.ready` pattern `rs`, a request at an in-order offset
+`p ≤ min wLength |d|` is answered, after at most four quiet cycles, with the abstract transmitter's
+trace of `specResponse`: the chunk `d[p .. p+mps) ∩ [0, wLength)`, or a one-cycle ZLP at the end of
+the data, or — descriptor absent — a one-cycle STALL and never `valid`. -/
+theorem block_packet_exact_partial (coll : Collection) (mps : Nat) (s0 : Block.State)
+    (ty idx l p : Nat) (rs : List Bool)
+    (hrom : romOk (Rom.layout coll) coll = true)
+    (hm : mps = 8 ∨ mps = 16 ∨ mps = 32 ∨ mps = 64)
+    (hpw : 2 ≤ (Rom.layout coll).maxLen)
+    (hty : ty < 256) (hidx : idx < 256) (hl : l < 65536)
+    (h0 : s0.fsm = .idle)
+    (hp : ∀ d, descrBytes coll ty idx = some d → p ≤ min l d.length) :
+    ∃ lat, lat ≤ 4 ∧
+      Block.run (blockOf coll mps) s0 (Block.reqInputs (ty * 256 + idx) l p rs)
+        = respTrace lat (specResponse (descrBytes coll ty idx) l mps p) rs := by
+  have hmps : 0 < mps ∧ mps < 65536 := by omega
+  have hposW : 2 ≤ (blockOf coll mps).img.posW := by
+    show 2 ≤ bitsFor (Rom.layout coll).maxLen
+    unfold bitsFor
+    rw [if_neg (by omega)]
+    have : 1 ≤ Nat.log2 (Rom.layout coll).maxLen := by
+      rw [Nat.le_log2 (by omega)]; omega
+    omega
+  unfold descrBytes at hp ⊢
+  cases hf : find? coll ty idx with
+  | some d =>
+    have hp' := hp d.bytes (by rw [hf]; rfl)
+    obtain ⟨w, hpres⟩ := Block.present_of_romOk (blockOf coll mps) coll ty idx d hrom hty hidx hf
+    simp only [Option.map_some, specResponse]
+    by_cases hlt : p < min l d.bytes.length
+    · refine ⟨4, by omega, ?_⟩
+      rw [if_pos hlt]
+      exact Block.block_data (blockOf coll mps) s0 ty idx l p w d.bytes hty hidx hpres h0 hmps.1 hmps.2 hl
+        hposW hlt rs
+    · rw [if_neg hlt]
+      exact Block.block_zlp (blockOf coll mps) s0 ty idx l p w d.bytes hty hidx hpres h0 hmps.2 hl hp' hlt rs
+  | none =>
+    have hok := romOk_lookupOk _ _ hrom ty idx hty hidx
+    unfold lookupOk at hok
+    rw [hf] at hok
+    have hnone : (blockOf coll mps).img.lookup ty idx = none := by
+      cases hlk : (Rom.layout coll).lookup ty idx with
+      | none => exact hlk
+      | some w => rw [hlk] at hok; simp at hok
+    obtain ⟨lat, hlat, h⟩ := Block.block_stall (blockOf coll mps) s0 ty idx l p hty hidx hnone h0 rs
+    exact ⟨lat, by omega, h⟩
+
+/-! ## Distributed (block-RAM-free) handler, with the repair of F6 -/
+
+theorem find_index (coll : List Descr) (P : Descr → Bool) (d : Descr) (h : coll.find? P = some d) :
+    ∃ j : Nat, coll[j]? = some d ∧ P d = true ∧ ∀ (k : Nat) (e : Descr), k < j → coll[k]? = some e → P e = false := by
+  induction coll with
+  | nil => simp at h
+  | cons a l ih =>
+    rw [List.find?_cons] at h
+    cases hpa : P a with
+    | true =>
+      rw [hpa] at h
+      simp only [Option.some.injEq] at h
+      subst h
+      exact ⟨0, by simp, hpa, fun (k : Nat) _ (hk : k < 0) _ => absurd hk (Nat.not_lt_zero k)⟩
+    | false =>
+      rw [hpa] at h
+      obtain ⟨j, h1, h2, h3⟩ := ih h
+      refine ⟨j + 1, by simpa using h1, h2, ?_⟩
+      intro k e hk hget
+      cases k with
+      | zero => simp at hget; subst hget; exact hpa
+      | succ k => exact h3 k e (by omega) (by simpa using hget)
+
+theorem key_ne_of_not_match (e : Descr) (ty idx : Nat) (hi : idx < 256) (he : e.idx < 256)
+    (h : (e.ty == ty && e.idx == idx) = false) : key e ≠ ty * 256 + idx := by
+  intro hk
+  unfold key at hk
+  have : e.ty = ty ∧ e.idx = idx := by omega
+  simp [this.1, this.2] at h
+
+/-- **dist_packet_exact** (full — no ROM, no assumption beyond the constructor's): from a quiescent
+state, for every `tx.ready` pattern, an in-order request (`p ≤ min wLength |d|`, and `p < wLength`
+as long as the host still asks) is answered after at most two quiet cycles with the abstract
+transmitter's trace of `specResponse`; an absent descriptor with a STALL pulse in the start cycle
+and never `valid`. -/
+theorem dist_packet_exact (coll : Collection) (mps : Nat) (s0 : Dist.State)
+    (ty idx l p : Nat) (rs : List Bool)
+    (hm : mps = 8 ∨ mps = 16 ∨ mps = 32 ∨ mps = 64)
+    (hwf : ∀ d ∈ coll, d.idx < 256)
+    (hidx : idx < 256) (hl : l < 65536)
+    (h0 : Dist.Quiescent (distOf coll mps) s0)
+    (hp : ∀ d, descrBytes coll ty idx = some d → p ≤ min l d.length ∧ p < l) :
+    ∃ lat, lat ≤ 2 ∧
+      Dist.run (distOf coll mps) s0 (Dist.reqInputs (ty * 256 + idx) l p rs)
+        = respTrace lat (specResponse (descrBytes coll ty idx) l mps p) rs := by
+  have hmps : 0 < mps ∧ mps < 65536 := by omega
+  obtain ⟨hz, hlen, hall⟩ := h0
+  unfold descrBytes at hp ⊢
+  cases hf : find? coll ty idx with
+  | some d =>
+    obtain ⟨hp1, hp2⟩ := hp d.bytes (by rw [hf]; rfl)
+    obtain ⟨j, hj, hP, hbefore⟩ := find_index coll _ d hf
+    have hkey : key d = ty * 256 + idx := by
+      simp only [Bool.and_eq_true, beq_iff_eq] at hP
+      unfold key; rw [hP.1, hP.2]
+    let e : Dist.Entry := ⟨key d, ⟨d.bytes⟩, some d.bytes.length⟩
+    have hs : Dist.Selects (distOf coll mps) (ty * 256 + idx) j e := by
+      refine ⟨?_, hkey, ?_⟩
+      · show (coll.map _)[j]? = _
+        rw [List.getElem?_map, hj]; rfl
+      · intro k e' hk hget
+        have hget' : (coll.map (fun d => (⟨key d, ⟨d.bytes⟩, some d.bytes.length⟩ : Dist.Entry)))[k]? = some e' := hget
+        rw [List.getElem?_map] at hget'
+        cases hck : coll[k]? with
+        | none => rw [hck] at hget'; simp at hget'
+        | some d' =>
+          rw [hck] at hget'
+          simp only [Option.map_some, Option.some.injEq] at hget'
+          subst hget'
+          exact key_ne_of_not_match d' ty idx hidx (hwf d' (List.mem_of_getElem? hck)) (hbefore k d' hk hck)
+    have hjlt : j < s0.gens.length := by
+      rw [hlen]; show j < (coll.map _).length
+      rw [List.length_map]
+      exact (List.getElem?_eq_some_iff.mp hj).1
+    obtain ⟨⟨g0, sr⟩, hg⟩ : ∃ g, s0.gens[j]? = some g := ⟨s0.gens[j], List.getElem?_eq_getElem hjlt⟩
+    obtain ⟨hgi, hsr⟩ := hall (g0, sr) (List.mem_of_getElem? hg)
+    simp only at hgi hsr
+    subst hsr
+    have hv : Dist.View s0 j g0 false false := ⟨hg, hz⟩
+    simp only [Option.map_some, specResponse]
+    by_cases hlt : p < min l d.bytes.length
+    · refine ⟨2, by omega, ?_⟩
+      rw [if_pos hlt]
+      exact Dist.dist_data (distOf coll mps) s0 g0 _ l p j e hs hv hgi
+        (fun n hn => by simp [e] at hn; omega) hmps.1 hmps.2 hl hlt rs
+    · refine ⟨1, by omega, ?_⟩
+      rw [if_neg hlt]
+      exact Dist.dist_zlp (distOf coll mps) s0 g0 _ l p j d.bytes.length e hs hv hgi rfl (by omega) rs
+  | none =>
+    refine ⟨0, by omega, ?_⟩
+    simp only [Option.map_none, specResponse]
+    apply Dist.dist_stall _ _ _ _ _ _ hz
+    intro e' he'
+    have he'' : e' ∈ coll.map (fun d => (⟨key d, ⟨d.bytes⟩, some d.bytes.length⟩ : Dist.Entry)) := he'
+    rw [List.mem_map] at he''
+    obtain ⟨d', hd', rfl⟩ := he''
+    have := List.find?_eq_none.mp hf d' hd'
+    exact key_ne_of_not_match d' ty idx hidx (hwf d' hd') (by simpa using this)
+
+/-! ## STALL without data -/
+
+theorem respTrace_stall_no_valid (lat : Nat) (rs : List Bool) :
+    ∀ b ∈ respTrace lat .stall rs, b.valid = false := by
+  unfold respTrace bodyTrace
+  induction lat generalizing rs with
+  | zero =>
+    intro b hb
+    cases rs with
+    | nil => simp [delayed, pulseTrace] at hb
+    | cons r rs =>
+      simp only [delayed, pulseTrace, List.mem_cons, idleTrace, List.mem_map] at hb
+      rcases hb with rfl | ⟨_, _, rfl⟩ <;> rfl
+  | succ n ih =>
+    intro b hb
+    cases rs with
+    | nil => simp [delayed] at hb
+    | cons r rs =>
+      simp only [delayed, List.mem_cons] at hb
+      rcases hb with rfl | hb
+      · rfl
+      · exact ih rs b hb
+
+/-- **stall_without_data_when_absent**, block handler (under the same ROM assumption). -/
+theorem stall_without_data_when_absent_block_partial (coll : Collection) (mps : Nat) (s0 : Block.State)
+    (ty idx l p : Nat) (rs : List Bool)
+    (hrom : romOk (Rom.layout coll) coll = true)
+    (hm : mps = 8 ∨ mps = 16 ∨ mps = 32 ∨ mps = 64) (hpw : 2 ≤ (Rom.layout coll).maxLen)
+    (hty : ty < 256) (hidx : idx < 256) (hl : l < 65536) (h0 : s0.fsm = .idle)
+    (habs : descrBytes coll ty idx = none) :
+    (∃ lat, lat ≤ 4 ∧ Block.run (blockOf coll mps) s0 (Block.reqInputs (ty * 256 + idx) l p rs)
+        = respTrace lat .stall rs)
+    ∧ ∀ b ∈ Block.run (blockOf coll mps) s0 (Block.reqInputs (ty * 256 + idx) l p rs), b.valid = false := by
+  obtain ⟨lat, hlat, h⟩ := block_packet_exact_partial coll mps s0 ty idx l p rs hrom hm hpw hty hidx hl h0
+    (by intro d hd; rw [habs] at hd; simp at hd)
+  rw [habs] at h
+  simp only [specResponse] at h
+  exact ⟨⟨lat, hlat, h⟩, by rw [h]; exact respTrace_stall_no_valid lat rs⟩
+
+/-- **stall_without_data_when_absent**, distributed handler. -/
+theorem stall_without_data_when_absent_dist (coll : Collection) (mps : Nat) (s0 : Dist.State)
+    (ty idx l p : Nat) (rs : List Bool)
+    (hm : mps = 8 ∨ mps = 16 ∨ mps = 32 ∨ mps = 64)
+    (hwf : ∀ d ∈ coll, d.idx < 256) (hidx : idx < 256) (hl : l < 65536)
+    (h0 : Dist.Quiescent (distOf coll mps) s0)
+    (habs : descrBytes coll ty idx = none) :
+    Dist.run (distOf coll mps) s0 (Dist.reqInputs (ty * 256 + idx) l p rs) = respTrace 0 .stall rs
+    ∧ ∀ b ∈ Dist.run (distOf coll mps) s0 (Dist.reqInputs (ty * 256 + idx) l p rs), b.valid = false := by
+  obtain ⟨lat, hlat, h⟩ := dist_packet_exact coll mps s0 ty idx l p rs hm hwf hidx hl h0
+    (by intro d hd; rw [habs] at hd; simp at hd)
+  rw [habs] at h
+  simp only [specResponse] at h
+  have : lat = 0 ∨ lat = 1 ∨ lat = 2 := by omega
+  have hq : Dist.run (distOf coll mps) s0 (Dist.reqInputs (ty * 256 + idx) l p rs) = respTrace 0 .stall rs := by
+    unfold descrBytes at habs
+    cases hf : find? coll ty idx with
+    | some d => rw [hf] at habs; simp at habs
+    | none =>
+      apply Dist.dist_stall _ _ _ _ _ _ h0.1
+      intro e' he'
+      have he'' : e' ∈ coll.map (fun d => (⟨key d, ⟨d.bytes⟩, some d.bytes.length⟩ : Dist.Entry)) := he'
+      rw [List.mem_map] at he''
+      obtain ⟨d', hd', rfl⟩ := he''
+      have := List.find?_eq_none.mp hf d' hd'
+      exact key_ne_of_not_match d' ty idx hidx (hwf d' hd') (by simpa using this)
+  exact ⟨hq, by rw [hq]; exact respTrace_stall_no_valid 0 rs⟩
+
 end LunaVerif.Desc
